@@ -58,13 +58,16 @@ def sym_iter_models(kinds, label="wire", iter_name="symiter"):
         if not (isinstance(it, Adt) and it.name == iter_name):
             return None
         out = []
+        # one cell per kind (same-kind elements are indistinguishable); all cells exist from the first
+        # call on, so that their mere presence does not distinguish abstract states
+        for kname, val in kinds.items():
+            st.heap["%s.elem.%s" % (label, kname)] = val
         st0 = st.fork()
         st0.choose("%s.next" % label, "end")
         out.append((NONE, st0))
         for kname, val in kinds.items():
             st2 = st.fork()
-            cell = "%s.elem.%s" % (label, kname)     # one cell per kind: same-kind elements are indistinguishable
-            st2.heap[cell] = val
+            cell = "%s.elem.%s" % (label, kname)
             st2.choose("%s.next" % label, kname)
             out.append((some(Ref(cell, (), False)), st2))
         return out
@@ -224,3 +227,44 @@ def decode_paths(ctx, prog):
         uniq[repr(sorted(d.items(), key=lambda kv: kv[0]))] = d
     info = {"where": body.where(), "paths": stats["paths"], "unmodelled": stats["unmodelled"], "body": body}
     return list(uniq.values()), info
+
+
+def protected_iter_spec_models(kinds, kind_class, label="wire"):
+    """ProtectedAttributeIteratorObject::next replaced by its specification (the RFC 8489 admission
+    automaton, proved equivalent to the code under C09 R9.3): each call either ends the sequence or
+    yields one *admitted* element of some kind and sets the corresponding flag; elements that are
+    skipped are unobservable to the caller.  kind_class: kind name -> 'MI' | 'SHA' | 'FP' | 'ORD'."""
+
+    def m_next(interp, fn, args, st, site, frame):
+        addr, path, it = innermost(interp, args[0], st)
+        if not (isinstance(it, Adt) and it.name.endswith("ProtectedAttributeIteratorObject")):
+            return None
+        fl = [interp.concretize(x, st) for x in it.fields[1:4]]
+        if not all(isinstance(x, Const) for x in fl):
+            return None
+        mi, sha, fp = [bool(x.v) for x in fl]
+        for kname, val in kinds.items():
+            st.heap["%s.elem.%s" % (label, kname)] = val
+        out = []
+        st0 = st.fork()
+        st0.choose("%s.next" % label, "end")
+        out.append((NONE, st0))
+        for kname, val in kinds.items():
+            kc = kind_class.get(kname, "ORD")
+            if kc == "ORD" or kc == "MI":
+                adm = not (mi or sha or fp)
+            elif kc == "SHA":
+                adm = not (sha or fp)
+            else:
+                adm = not fp
+            if not adm:
+                continue
+            st2 = st.fork()
+            nf = (mi or kc == "MI", sha or kc == "SHA", fp or kc == "FP")
+            newit = Adt(it.name, it.variant, [it.fields[0]] + [Const(1 if x else 0, "bool") for x in nf], it.vname)
+            st2.heap[addr] = interp.set_at(st2.heap[addr], path, newit)
+            st2.choose("%s.next" % label, kname)
+            out.append((some(Ref("%s.elem.%s" % (label, kname), (), False)), st2))
+        return out
+
+    return [(r"ProtectedAttributeIteratorObject<'a> as std::iter::Iterator>::next$|ProtectedAttributeIteratorObject<'_> as std::iter::Iterator>::next$", m_next)]
